@@ -169,7 +169,11 @@ Record certdesc := {
   d_orgs : list bs;
   d_groups : list bs;           (* group-list extension *)
   d_methods : list bs;          (* service-method extension *)
-  d_krb : option (bs * bs) }.   (* PKINIT SAN: (realm, principal) *)
+  d_krb : option (bs * bs);     (* PKINIT SAN: (realm, principal) *)
+  d_other_names : list bs }.    (* every other identity the certificate carries: further principals or critical
+                                   options (SSH); DNS / e-mail / URI / address / directory / other-name entries of
+                                   the subject alternative name, further subject attributes, a second common
+                                   name (X.509) *)
 
 Inductive outcome := Issued (user : N) (c : certdesc) | Refused (code : N).
 
@@ -231,7 +235,7 @@ Definition ssh_cert (st : server) (u : N) (user : bs) (q : certreq) : outcome :=
                            d_key := k; d_user_type := true; d_is_ca := false; d_ekus := [];
                            d_exts := ssh_extensions custom;
                            d_signer := if ed then ed_key_of st else main_key_of st;
-                           d_orgs := []; d_groups := []; d_methods := []; d_krb := None |}
+                           d_orgs := []; d_groups := []; d_methods := []; d_krb := None; d_other_names := [] |}
            end
   end.
 
@@ -253,7 +257,8 @@ Definition x509_cert (st : server) (u : N) (user : bs) (q : certreq) (kube : boo
                           d_orgs := if kube then user_groups else [s_keymaster];
                           d_groups := if q_add_groups q then user_groups else [];
                           d_methods := methods;
-                          d_krb := match s_realm st with Some r => Some (r, user) | None => None end |}
+                          d_krb := match s_realm st with Some r => Some (r, user) | None => None end;
+                          d_other_names := [] |}
           end
       end
   end.
